@@ -92,8 +92,16 @@ Definition map2d {A B C} (f : A -> B -> C) (a : list (list A)) (b : list (list B
   map2 (map2 f) a b.
 
 (* ------------------------------------------------------------------ user functions of the correspondence run *)
-Record ufun (A : Type) := { absy : bool; absx : bool; terms : list (nat * nat * A) }.
-Arguments absy {A}. Arguments absx {A}. Arguments terms {A}.
+(* what the user function does with the value p of its polynomial: integer- / bool-valued functions (indicator, step,
+   count, sign, floor) are what users write with comparisons; the dtype of the returned array is NOT part of the function *)
+Inductive upost (A : Type) :=
+| PId                                  (* p *)
+| PCount (off : Z) (cuts : list A)     (* off + #{c in cuts : c < p}   ([0]: the indicator p > 0) *)
+| PSign                                (* 1 / 0 / -1 *)
+| PFloor.                              (* floor p *)
+Arguments PId {A}. Arguments PCount {A}. Arguments PSign {A}. Arguments PFloor {A}.
+Record ufun (A : Type) := { absy : bool; absx : bool; terms : list (nat * nat * A); post : upost A }.
+Arguments absy {A}. Arguments absx {A}. Arguments terms {A}. Arguments post {A}.
 
 Section Model.
   Context {O : NumOps}.
@@ -105,10 +113,18 @@ Section Model.
 
   Fixpoint powN (x : Num) (n : nat) : Num := match n with 0%nat => one | S k => x *. powN x k end.
   (* f(y,x) = sum c * u^i * v^j, u = y or |y|, v = x or |x| *)
-  Definition eval_ufun (f : ufun Num) (p : Num * Num) : Num :=
+  Definition eval_upoly (f : ufun Num) (p : Num * Num) : Num :=
     let u := if absy f then absT (fst p) else fst p in
     let v := if absx f then absT (snd p) else snd p in
     fold_left (fun acc t => let '(i, j, c) := t in acc +. c *. powN u i *. powN v j) (terms f) zero.
+  Definition eval_upost (g : upost Num) (v : Num) : Num :=
+    match g with
+    | PId => v
+    | PCount off cuts => ofZ O (off + Z.of_nat (length (filter (fun c => ltb O c v) cuts)))
+    | PSign => if ltb O zero v then one else if ltb O v zero then opp O one else zero
+    | PFloor => ofZ O (floorZ O v)
+    end.
+  Definition eval_ufun (f : ufun Num) (p : Num * Num) : Num := eval_upost (post f) (eval_upoly f p).
 
   (* ---------------------------------------------------------------- geometry helpers *)
   (* geometry_util.central_pixel_coordinates_2d_from + central_scaled_coordinate_2d_from *)
